@@ -161,6 +161,8 @@ int kalign_read_input(char* infile, struct msa** msa, int quiet)
         }else{
                 *msa = m;
         }
+        /* ownership has passed to *msa (or m is gone): the caller frees it  */
+        m = NULL;
         /* LOG_MSG("%d " , (*msa)->aligned); */
         RUN(check_for_sequences(*msa));
         return OK;
